@@ -339,6 +339,12 @@ def _cfg_shard(arg):
     a = dict(E)
     a.update({v: '/nonexistent/changed-' + v.lower() for v in CONFIG_VARS})
     ambients.append(('change all', a))
+    if not thorough and (cfg['extra'] or len(cfg['args']) > 1):
+        # quick: the per-variable ambients are run in full for the configurations with at most one
+        # configure argument; the others get the joint ambients and three representative variables
+        keep = ('same', 'unset all', 'change all', 'unset CC', 'change CC', 'unset CFLAGS', 'change CFLAGS',
+                'unset PATH', 'change PATH')
+        ambients = [x for x in ambients if x[0] in keep]
     harness_keep = ('PYTHONPATH', 'PYTHONHASHSEED', 'PYTHONDONTWRITEBYTECODE')
     cwds = [bld, os.path.join(root, 'src'), '/'] if thorough else [bld, '/']
     saved_env_text = None
